@@ -2,6 +2,7 @@ package c09
 
 import (
 	"fmt"
+	"strings"
 
 	"github.com/openconfig/goyang/pkg/yang"
 	"verif/mc/dump"
@@ -76,6 +77,17 @@ func checkMany(cs scalekit.Case) scalekit.Verdict {
 		pt, ut := typ("pl"), typ("ul")
 		if pt == nil || len(pt.Pattern) != cs.N || pt.Pattern[0] != "p0.*" || pt.Pattern[cs.N-1] != fmt.Sprintf("p%d.*", cs.N-1) {
 			return scalekit.Bad("patterns-not-accumulated", fmt.Sprintf("%d patterns p0.* .. p%d.*", cs.N, cs.N-1), fmt.Sprint(pt != nil && true, pt))
+		}
+		for name, extra := range map[string]string{"pa": "x", "pb": "x", "pc": "y", "pe": "x", "pf": "x y"} {
+			t := typ(name)
+			want := cs.N + len(strings.Fields(extra))
+			if t == nil || len(t.Pattern) != want || strings.Join(t.Pattern[cs.N:], " ") != extra {
+				got := "<nil>"
+				if t != nil {
+					got = fmt.Sprintf("%d patterns, the last ones %q", len(t.Pattern), t.Pattern[max(0, len(t.Pattern)-3):])
+				}
+				return scalekit.Bad("patterns-not-accumulated", fmt.Sprintf("%s: the %d patterns of the typedef and then %q", name, cs.N, extra), got)
+			}
 		}
 		if ut == nil || len(ut.Type) != cs.N {
 			n := -1
